@@ -10,6 +10,7 @@ import (
 	"github.com/Oneledger/protocol/action"
 	"github.com/Oneledger/protocol/data/evidence"
 	"github.com/Oneledger/protocol/data/keys"
+	"github.com/Oneledger/protocol/identity"
 )
 
 var _ action.Msg = &Withdraw{}
@@ -142,6 +143,15 @@ func runWithdraw(ctx *action.Context, tx action.RawTx) (bool, action.Response) {
 		frozenOrigin = frozenOrigin || ctx.Delegators.HasValidatorDelegation(lvh.Address, draw.StakeAddress)
 		return frozenOrigin
 	})
+	// that scan only visits records that are already committed: a validator frozen for the first time by the
+	// BeginBlock of this very block (missed votes) is found through its validator record
+	if !frozenOrigin {
+		ctx.Validators.Iterate(func(addr keys.Address, validator *identity.Validator) bool {
+			frozenOrigin = ctx.EvidenceStore.IsFrozenValidator(validator.Address) &&
+				ctx.Delegators.HasValidatorDelegation(validator.Address, draw.StakeAddress)
+			return frozenOrigin
+		})
+	}
 	if frozenOrigin {
 		return false, action.Response{Log: evidence.ErrFrozenValidator.Error()}
 	}
